@@ -10,7 +10,8 @@ import (
 
 var sqrtShapes = []string{"√9", "√16", "√0", "√(4 + 5)", "√9 + 1", "√1"}
 
-var constShapes = []string{"256 * 256", "65534 + 2", "32768 + 32768", "65533 + 2", "255 * 257", "65534 + 3", "65534 * 2", "65534 - 65534", "65534 / 65534", "2 - 65534", "256 * 256 == 65536", "256 * 256 > 1",
+var constShapes = []string{"10 + (3 - (1 - 2))", "100 + 3 * (300 * 300)", "1 + 2 + (0 - 5)", "2 * (3 - 5) + 4", "7 - (2 - 9) * 2", "1 + (300 * 300) + 2", "(1 - 2) - (3 - 4)", "5 + (1 - 2) * (3 - 4)", "1 + 2 * (0 - 3) + 4 * 5",
+	"256 * 256", "65534 + 2", "32768 + 32768", "65533 + 2", "255 * 257", "65534 + 3", "65534 * 2", "65534 - 65534", "65534 / 65534", "2 - 65534", "256 * 256 == 65536", "256 * 256 > 1",
 	"1 + 2", "5 - 3", "3 - 5", "300 * 300", "6 / 2", "7 / 2", "1 / 0", "0 / 5", "2 == 2", "2 == 3", "2 != 2", "2 != 3", "√2", "√2.25", "√Count",
 	"1 + 2 + 3", "2 * 3 + 4", "2 + 3 * 4", "(1 + 2) * 3", "10 - 2 - 3", "100 / 10 / 2", "1 + 2 == 3", "65534 + 1", "65534 + 0", "32767 * 2", "0 - 0", "4 * 0", "8 / 8",
 	"1 + Count", "Count + 1 + 2", "1 + 2 + Count", "2 * 2 * Count", "1 == 1 && Flag", "true", "false", "1 == 1", "1 == 2", "1 != 1", "!(1 == 1)", "1 + 2 > 2", "1.5 + 1", "\"a\" == \"a\""}
@@ -804,7 +805,7 @@ func genDet(stream string, seed uint64, n int, replicas int) []GenCase {
 			ents = append(ents, [2]HV{{Kind: "str", S: "$" + nm}, {Kind: "int", IntKind: "int", I: int64(100 + k)}})
 		}
 		o := HV{Kind: "map", ElemIface: true, KeyKind: "str", Entries: ents}
-		for j, script := range []string{"return [Count, Name, Score, Big, Off, Kx, Ky, Kz];", "return [$Count, $Name, $Score, $Big, $Off, $Kx, $Ky, $Kz];", "return [Count, $Count, Kz, $Kz];"} {
+		for j, script := range []string{"return [Count, Name, Score, Big, Off, Kx, Ky, Kz];", "return [$Count, $Name, $Score, $Big, $Off, $Kx, $Ky, $Kz];", "return [Count, $Count, Kz, $Kz];", "return [$$Count, $$Name, $$$Kz, $$Missing];"} {
 			for k := 0; k < replicas; k++ {
 				c := Case{ID: fmt.Sprintf("%s-dollar-%d-%d", stream, j, k), Script: script, Opt: j%2 == 0, Fns: []HostFn{recFn()}, Tags: []string{"determinism", "dollar-keys"},
 					Runs: []Run{{Obj: o, Polls: defaultPolls}, {Obj: o, Polls: defaultPolls}}}
@@ -1039,7 +1040,7 @@ func genRefl(stream string, seed uint64, n int) []GenCase {
 			st2.Fields = append(st2.Fields, HField{f.Name, f.Exported, mutateHV(f.V)})
 		}
 		objs = append(objs, HV{Kind: "ptr", To: &st}, HV{Kind: "ptr", To: &st2}, HV{Kind: "ptr", To: &st})
-		ss := scripts(append(names, "Missing", "$F0"))
+		ss := scripts(append(names, "Missing", "$F0", "$$F0", "$$$F1"))
 		ss = append(ss, "F0 = \"shadow\"; return F0;", "return [F0, F1];")
 		// a variable of the same name takes precedence - also after the object has been looked at in this run
 		shadow := []string{"x = F0; F0 = \"shadow\"; return [x, F0];", "x = F1; F0 = \"shadow\"; return [F0, x, F0];",
